@@ -70,7 +70,7 @@ def pyPow (a b : Float) : Except Err Float :=
 def b2f (b : Bool) : Float := if b then 1.0 else 0.0
 
 def pyFn (f : String) (x : Float) : Except Err Float :=
-  if f == "ABS" then .ok ((-x) * b2f (x < 0.0) + x * b2f (x > 0.0))     -- Rectifier's lambda, as written
+  if f == "ABS" then .ok x.abs                                          -- Rectifier: `f = abs` (fix 8378be5)
   else if f == "SQRT" then (if x < 0.0 then .error .value else .ok x.sqrt)
   else if f == "DIODE" then .ok (x * b2f (x > 0.0))
   else if f == "SIGN" then .ok (b2f (x >= 0.0) - b2f (x < 0.0))
@@ -83,7 +83,8 @@ def pyFn (f : String) (x : Float) : Except Err Float :=
   else if f == "LOG" then .ok (if x > 0.0 then x.log else 0.0)
   else .error .unsupported
 
-def big : Float := Float.ofScientific 1 false 300
+/-- start value of Min / Max / Argmin / Argmax: `float('inf')` (fix 68863c7) -/
+def big : Float := 1.0 / 0.0
 
 def argBest (better : Float → Float → Bool) (init : Float) (l : List Float) : Nat :=
   ((l.zipIdx 0).foldl (fun (acc : Float × Nat) p => if better p.1 acc.1 then (p.1, p.2) else acc) (init, 0)).2
